@@ -40,7 +40,9 @@ pub fn gen(tier: &str, seed: u64, idx: u64, base: u64) -> Spec {
         ]
     };
     if !goals.is_empty() {
-        let g = *rng.pick(&goals);
+        // goals with unknowns have several answers: an interruption can land between two of them (aggregation paths)
+        let open: Vec<usize> = goals.iter().cloned().filter(|&g| world.goals[g].contains("exists")).collect();
+        let g = if !open.is_empty() && rng.coin(40) { *rng.pick(&open) } else { *rng.pick(&goals) };
         ops.push(Op { kind: OpKind::Limited(Sched::Never), slot: 0, goal: g, fault: None });
         // follow-ups: always re-ask the same goal first, then a PRNG-drawn tail
         ops.push(Op { kind: OpKind::Solve, slot: rng.below(slots.len()), goal: g, fault: None });
